@@ -10,11 +10,11 @@ import UralModel.Lemmas.CanonShape
 outside (`World`): the idna codec `puny` and the TLD table `validTld`.
 
 * **`canon_preserves_is_url`** — "`canonicalize_url` preserves `is_url`" for the concrete
-  models, on the decidable class `region` (ASCII scheme, no bracket in the authority, no `@`
-  behind the authority), for every idna decoder that maps host labels to host labels
+  models, on the decidable class `region` (ASCII scheme, no `@` behind the authority), for
+  every idna decoder that maps host labels to host labels
   (`PunyLabelSafe`) and every TLD table.  The clause is **false** without these hypotheses,
   on the models (`canon_not_preserving_outside_region`, `canon_not_preserving_bad_puny`) and
-  on the implementation (KF-C17-3, KF-C17-4, KF-C17-6; KF-C17-5 lies outside the parser model).
+  on the implementation (KF-C17-3, KF-C17-4; KF-C17-5 lies outside the parser model).
 * **`links_are_urls_concrete`**, **`links_should_follow_concrete`** — the two clauses that were
   `_partial` for arbitrary parameters, without the hypothesis on the parameters.
 * the clauses that hold for arbitrary parameters, instantiated (`links_*_concrete`).
@@ -54,31 +54,72 @@ values of `strip_fragment`, every TLD table. -/
 theorem canon_preserves_is_url (W : World) (hpuny : PunyLabelSafe W.puny) (sf : Bool) (u c : Str)
     (hr : region u = true) (hu : isUrlC W u = true) (hc : canonC W sf u = some c) :
     isUrlC W c = true := by
-  obtain ⟨sch, ui, H, po, tl, hsh, htld⟩ := shape_of_isUrl W u hu hr
+  obtain ⟨sch, ui, H, po, tl, hsh, _, htld⟩ := shape_of_isUrl W u hu hr
   obtain ⟨ui1, tl1, hsh1⟩ := clean_shape hsh
   obtain ⟨S, rest, hcl, _⟩ := cleanUrl_cleaned u "https".toList https_shaped
-  simp only [canonC, canonicalizeUrl, canonicalizeSplit, canonOpts, Option.map_map] at hc
+  simp only [canonC, canonicalizeUrl, canonicalizeSplit, canonOpts] at hc
   cases hpp : Py.parseUrl (Canonicalize.cleanUrl u "https".toList) with
   | none => rw [hpp] at hc; cases hc
   | some p =>
     rw [hpp] at hc
-    simp only [Option.map_some, Function.comp, Option.some.injEq] at hc
-    subst hc
-    obtain ⟨ui2, po2, tl2, hsh2, hws, hui2, hpo2⟩ := canon_shape W.puny hpuny sf hsh1 hcl hpp
-    have hsch := hsh.sch.facts.2.1
-    obtain ⟨hHc, hlast⟩ := host_canon W.puny hpuny hsh.host
-    apply isUrl_of_shape W hsh2 hsch hws hui2 hpo2
-    have hll : lower (canonHost W.puny (lower H)) = canonHost W.puny (lower H) := by
-      unfold canonHost; rw [lower_lower]
-    rw [hll]
-    rcases htld with hv | hsp
-    · left
-      have : IsUrl.lastLabel (canonHost W.puny (lower H)) = IsUrl.lastLabel (lower H) := hlast
-      rw [this]; exact hv
-    · right
-      have hx := special_no_x_mem hsp
-      rw [host_canon_id W.puny hx, lower_lower]
-      exact hsp
+    simp only [Option.bind_some, canonSplit] at hc
+    -- brackets in the userinfo: `canonicalize_url` raises, nothing to prove
+    by_cases hub : userinfoBrackets p.netloc = true
+    · rw [if_pos hub] at hc; cases hc
+    · rw [if_neg hub] at hc
+      simp only [Option.map_some, Option.some.injEq] at hc
+      -- what the parser read as netloc
+      have hnl : p.netloc = ui1 ++ (H ++ po) := by
+        have hpp' := hpp
+        unfold Py.parseUrl at hpp'
+        cases hok : Py.netlocOk (ui1 ++ (H ++ po)) with
+        | false => rw [hsh1.urlsplit_bad hok] at hpp'; cases hpp'
+        | true =>
+          obtain ⟨pa, q, f, hsp⟩ := hsh1.urlsplit_ok hok
+          rw [hsp] at hpp'
+          simp only at hpp'
+          cases hport : Py.port (ui1 ++ (H ++ po)) with
+          | none => rw [hport] at hpp'; cases hpp'
+          | some po1 =>
+            rw [hport] at hpp'
+            simp only [Option.some.injEq] at hpp'
+            rw [← hpp']; rfl
+      have hnb : '[' ∉ ui1 ∧ ']' ∉ ui1 := by
+        have hub' : userinfoBrackets (ui1 ++ (H ++ po)) = false := by
+          rw [← hnl]; simpa using hub
+        simp only [userinfoBrackets, Bool.or_eq_false_iff] at hub'
+        have hue := hsh1.userinfo_eq
+        constructor
+        · intro hm
+          rw [← hue] at hm
+          rcases List.mem_append.mp hm with hm | hm
+          · have : ((Py.splitLast (ui1 ++ (H ++ po)) '@').1.getD []).contains '[' = true := by simpa using hm
+            rw [hub'.1] at this; cases this
+          · split at hm <;> simp at hm
+        · intro hm
+          rw [← hue] at hm
+          rcases List.mem_append.mp hm with hm | hm
+          · have : ((Py.splitLast (ui1 ++ (H ++ po)) '@').1.getD []).contains ']' = true := by simpa using hm
+            rw [hub'.2] at this; cases this
+          · split at hm <;> simp at hm
+      obtain ⟨ui2, po2, tl2, hsh2, hws, hui2, hpo2, hok2, hprint⟩ :=
+        canon_shape W.puny hpuny sf hsh1 hcl hpp hnb
+      rw [hprint] at hc
+      subst hc
+      have hsch := hsh.sch.facts.2.1
+      obtain ⟨hHc, hlast⟩ := host_canon W.puny hpuny hsh.host
+      apply isUrl_of_shape W hsh2 hsch hws hui2 hpo2 hok2
+      have hll : lower (canonHost W.puny (lower H)) = canonHost W.puny (lower H) := by
+        unfold canonHost; rw [lower_lower]
+      rw [hll]
+      rcases htld with hv | hsp
+      · left
+        have : IsUrl.lastLabel (canonHost W.puny (lower H)) = IsUrl.lastLabel (lower H) := hlast
+        rw [this]; exact hv
+      · right
+        have hx := special_no_x_mem hsp
+        rw [host_canon_id W.puny hx, lower_lower]
+        exact hsp
 
 /-! ### the hypotheses are needed (closed examples, evaluated by the kernel) -/
 
